@@ -37,6 +37,7 @@ func runC14L2(r *core.Run) (*core.Violation, func() *core.Violation) {
 	tail := 20 + r.Choose(80, "knob.l2tail")
 	injections := 2 + r.Choose(6, "knob.injections")
 	swap := []bool{r.Bool(40, "knob.swap-hosts0"), r.Bool(40, "knob.swap-hosts1")}
+	blocked := []bool{r.Bool(12, "knob.blocked-host0"), r.Bool(12, "knob.blocked-host1")}
 	prov := testAddr(1)
 	tenant := testAddr(3)
 	x.prov = ptypes.Provider{Owner: prov.String(), HostURI: "https://p.example.com"}
@@ -104,6 +105,7 @@ func runC14L2(r *core.Run) (*core.Violation, func() *core.Violation) {
 		sess := session.New(log.NewNopLogger(), cl, &x.prov)
 		cfg := cluster.NewDefaultConfig()
 		cfg.InventoryExternalPortQuantity = 100
+		cfg.BlockedHostnames = []string{blockedHost}
 		var err error
 		x.svc, err = cluster.NewService(ctx, sess, x.bus, &cluClient{s: x.s, inc: 1}, cfg)
 		if err != nil {
@@ -116,6 +118,7 @@ func runC14L2(r *core.Run) (*core.Violation, func() *core.Violation) {
 			l.key = mquery.LeasePath(l.id)
 			l.hosts = []string{fmt.Sprintf("app%d.example.com", i)}
 			l.swapHosts = swap[i]
+			l.blockedSecond = blocked[i]
 			x.leases = append(x.leases, l)
 			if _, err := x.svc.Reserve(oid, gs); err != nil {
 				panic(fmt.Sprintf("harness: initial reservation failed: %v", err))
@@ -151,6 +154,10 @@ func runC14L2(r *core.Run) (*core.Violation, func() *core.Violation) {
 				st = append(st, l2Stim{"manifest", 3, func() {
 					injections--
 					l.lastSent++
+					if l.blockedSecond {
+						l.deployFail = true
+						r.Count("probe:l2-hostname-reservation-refused")
+					}
 					v := l.lastSent
 					m, _ := x.manifestFor(l, v)
 					if in := x.inflight(l); in != "" {
